@@ -1,7 +1,7 @@
 CONSTANTS
   Cfgs <- C03_Cfgs
   StoreLists <- C03_Stores
-  CerLists <- C03c_Cers
+  CerLists <- C03ct_Cers
   Known = {}
   Export = TRUE
 SPECIFICATION Spec
